@@ -95,7 +95,7 @@ def apply_prefixes(rng, doc, outer=None):
     """Rewrite dotted datatype / keytype names of one document (schema or component AST) with
     prefix attributes.  -> set of feature labels."""
     feats = set()
-    p0 = rng.choice([None, "zcv", "zcv.dt", "zcv.dt"]) if outer is None else outer
+    p0 = rng.choice([None, "zcv", "zcv", "zcv.dt", "zcv.dt", "zcv.dtalt"]) if outer is None else outer
     if outer is None and p0:
         doc["prefix"] = p0
         feats.add("prefix:document")
@@ -109,11 +109,11 @@ def apply_prefixes(rng, doc, outer=None):
         eff = p0
         r = rng.random()
         if p0 == "zcv" and r < 0.4:
-            t["prefix"] = ".dt"
-            eff = "zcv.dt"
+            t["prefix"] = rng.choice([".dt", ".dt", ".dtalt"])
+            eff = "zcv" + t["prefix"]
             feats.add("prefix:relative-nested")
-        elif r < 0.55:
-            t["prefix"] = rng.choice(["zcv.dt", "zcv"])
+        elif r < 0.6:
+            t["prefix"] = rng.choice(["zcv.dt", "zcv", "zcv.dtalt"])
             eff = t["prefix"]
             feats.add("prefix:absolute-nested")
         for key in ("datatype", "keytype"):
@@ -197,13 +197,18 @@ def compose(rng, ast, pkgbase, use_components=True, use_bases=True, use_prefixes
         for it in main["items"]:
             buckets[rng.randrange(nb + 1)].append(it)
         main["items"] = buckets[nb]
+        # the extender may leave key type and/or datatype to its bases (all of which agree)
+        inherit_dt = bool(main.get("datatype")) and rng.random() < 0.4
+        inherit_kt = bool(main.get("keytype")) and rng.random() < 0.4
         # all imports and types go to the base that is read first: the one listed last
         for i in range(nb):
             b = {"keytype": main.get("keytype"), "datatype": None, "abstract": [], "types": [], "items": buckets[i]}
             if i == nb - 1:
                 b["abstract"], b["types"], b["imports"] = main["abstract"], main["types"], main.get("imports", [])
                 main["abstract"], main["types"], main["imports"] = [], [], []
-            if main.get("datatype") and rng.random() < 0.5:
+            if inherit_dt:
+                b["datatype"] = main["datatype"]
+            elif main.get("datatype") and rng.random() < 0.5:
                 b["datatype"] = main["datatype"]
             if relpkg and b.get("imports"):
                 b["prefix"] = pkgbase
@@ -212,7 +217,15 @@ def compose(rng, ast, pkgbase, use_components=True, use_bases=True, use_prefixes
             rel = names[i]
             path = "main/" + rel if not rel.startswith("../") else rel[3:]
             c.files[path] = gen.render_schema(b)
-        if nb == 1 and (main.get("keytype") or main.get("datatype")) and rng.random() < 0.6:
+        if inherit_dt:
+            main["datatype"] = None
+            c.features.add("schema-extends:datatype-from-bases")
+        if inherit_kt:
+            main["keytype"] = None
+            c.features.add("schema-extends:keytype-from-bases")
+        if inherit_dt and not inherit_kt and main.get("keytype"):
+            c.features.add("schema-extends:explicit-keytype-inherited-datatype")
+        if nb == 1 and not (inherit_dt or inherit_kt) and (main.get("keytype") or main.get("datatype")) and rng.random() < 0.6:
             # a chain: main -> b1 -> b0, where only the bottom declares key type / datatype
             only = "main/" + names[0] if not names[0].startswith("../") else names[0][3:]
             b0 = {"keytype": main.get("keytype"), "datatype": main.get("datatype"), "abstract": [],
